@@ -137,6 +137,11 @@ func init() {
 			os.Setenv("GORACE", "halt_on_error=1")
 			cases, results := c.replay("isovm", r.cases, replayOpts{timeout: 60e9, opts: map[string]string{"tmp": c.work}})
 			c.judge("isovm", cases, results, func(cs, res map[string]J) string { in, _ := res["input"].(string); return in })
+			// open enumerations (current_prolog_flag/2, current_op/3, current_predicate/1) on A while B changes the same fields or
+			// runs the same enumeration: IsolationEnum.tla (EnumStable)
+			re := c.mcHolds("IsolationEnum", "IsolationEnum.cfg", tlcOpts{workers: 4})
+			ec, er := c.replay("isovm", re.cases, replayOpts{timeout: 60e9, opts: map[string]string{"tmp": c.work}})
+			c.judge("isovm", ec, er, func(cs, res map[string]J) string { in, _ := res["input"].(string); return in })
 			n := 40
 			if c.tier == "thorough" {
 				n = 500
